@@ -336,7 +336,7 @@ fn c08_console_new() {
         Err(e) => {
             assert!(k >= 1 && k <= 4 && e == Error::DmaError, "C09: construction may only fail with DmaError when an allocation failed");
             assert!(dma_live_count() == 0, "C09: DMA region leaked by a failed construction");
-            assert!(ev_find(EV_SET_STATUS, Some(15), 0).is_none(), "C08: DRIVER_OK set by a failed construction");
+            assert!(ev_find(EV_SET_STATUS, Some(15), 0).is_none(), "C08/C09: DRIVER_OK set by a failed construction (the device is live while the memory of its queues is released)");
         }
         Ok(mut con) => {
             assert!(k == 0 || k == 5, "C09: construction succeeded although an allocation failed");
